@@ -152,7 +152,7 @@ class Server:
         except Exception:  # noqa
             pass
 
-    def _wait_port(self, limit=8.0):
+    def _wait_port(self, limit=25.0):
         end = time.time() + limit
         while time.time() < end:
             if self.proc.poll() is not None:
